@@ -270,6 +270,18 @@ func (*BaseNode).InsertAfter
      bn(par(insertee)).childCount, bn(par(insertee)).firstChild, bn(par(insertee)).lastChild, bn(prv(insertee)).next, bn(nxt(insertee)).prev,
      bn(nxt(v1)).prev, bn(v1).next, bn(prv(nxt(v1))).next
 
+iface ast.Node.InsertAfter
+  requires WF() && self != nil && recv == self && v1 != nil && insertee != nil && insertee != self && insertee != v1
+  updates klen(p) = (iaNoop(self, v1, insertee) ? klen(p) : (isChild(nxt(v1), self) ? ibLen(p, self, insertee) : apLen(p, self, insertee)))
+  updates kid(p, i) = (iaNoop(self, v1, insertee) ? kid(p, i) : (isChild(nxt(v1), self) ? ibKid(p, i, self, nxt(v1), insertee) : apKid(p, i, self, insertee)))
+  updates kidx(w) = (iaNoop(self, v1, insertee) ? kidx(w) : (isChild(nxt(v1), self) ? ibIdx(w, self, nxt(v1), insertee) : apIdx(w, self, insertee)))
+  ensures WF()
+  ensures par(insertee) == self
+  ensures forall w addr {par(w)} :: w != insertee ==> par(w) == old(par(w))
+  modifies bn(self).childCount, bn(self).firstChild, bn(self).lastChild, bn(insertee).parent, bn(insertee).next, bn(insertee).prev, bn(lst(self)).next,
+     bn(par(insertee)).childCount, bn(par(insertee)).firstChild, bn(par(insertee)).lastChild, bn(prv(insertee)).next, bn(nxt(insertee)).prev,
+     bn(nxt(v1)).prev, bn(v1).next, bn(prv(nxt(v1))).next
+
 // ReplaceChild(self, v1, ins): ins takes the place of v1 (which becomes isolated); a foreign v1 means: append ins.
 func (*BaseNode).ReplaceChild
   uses nodeModel
@@ -424,7 +436,7 @@ func IsParagraph
   modifies nothing
 // block nodes allocate their line list on demand: never nil
 func (*BaseBlock).Lines
-  ensures result != nil
+  ensures result != nil && result == b.lines && (old(b.lines) != nil ==> b.lines == old(b.lines))
   modifies b.lines
 // RemoveChildren(self): every child becomes isolated; nothing else changes.
 func (*BaseNode).RemoveChildren
